@@ -81,6 +81,9 @@ impl<S: Storage<Item = T>, T> ConcurrentMutRingBuf<S> {
     /// - [`AsyncConsIter`].
     #[cfg(all(not(feature = "alloc"), any(feature = "async", doc)))]
     pub fn split_async(&mut self) -> (AsyncProdIter<ConcurrentMutRingBuf<S>>, AsyncConsIter<ConcurrentMutRingBuf<S>, false>) {
+        self.set_prod_index(0);
+        self.set_work_index(0);
+        self.set_cons_index(0);
         self.set_prod_alive(true);
         self.set_cons_alive(true);
 
@@ -97,6 +100,9 @@ impl<S: Storage<Item = T>, T> ConcurrentMutRingBuf<S> {
     /// - [`AsyncConsIter`].
     #[cfg(all(not(feature = "alloc"), any(feature = "async", doc)))]
     pub fn split_mut_async(&mut self) -> (AsyncProdIter<ConcurrentMutRingBuf<S>>, AsyncWorkIter<ConcurrentMutRingBuf<S>>, AsyncConsIter<ConcurrentMutRingBuf<S>, true>) {
+        self.set_prod_index(0);
+        self.set_work_index(0);
+        self.set_cons_index(0);
         self.set_prod_alive(true);
         self.set_work_alive(true);
         self.set_cons_alive(true);
